@@ -90,7 +90,7 @@ def to_altoxml_string(self, ocr_processing_element: ET.SubElement = None, page_u
                 logits = line.get_dense_logits()[line.logit_coords[0]:line.logit_coords[1]]
                 logprobs = line.get_full_logprobs()[line.logit_coords[0]:line.logit_coords[1]]
                 aligned_letters = align_text(-logprobs, np.array(label), blank_idx)
-            except (ValueError, IndexError, TypeError) as e:
+            except (ValueError, IndexError, TypeError, AttributeError) as e:
                 logger.warning(f'Error: Alto export, unable to align line {line.id} due to exception {e}.')
                 line.transcription_confidence = 0
                 average_word_width = (text_line_hpos + text_line_width) / len(line.transcription.split())
